@@ -8,6 +8,7 @@ From stdpp Require Import gmap list.
 From RecordUpdate Require Import RecordSet.
 Import RecordSetNotations.
 From Coq Require Import Lia.
+From Aldrin Require Import Proto.ClientGateTie.
 From Aldrin Require Import gen.BrokerConsts Broker.Model Broker.Run Proto.Accept Proto.AcceptProofs
   Broker.GateProofs Broker.OutProofs Props.C12_lemmas.
 Local Open Scope N_scope.
@@ -127,3 +128,12 @@ Proof.
   - exfalso. unfold step in E. destruct (handle _ _ _ _ _); try discriminate E; destruct (settle _ _); discriminate E.
   - exfalso. revert E. vm_compute. discriminate.
 Qed.
+
+(* ---- the CLIENT library applies the same table when it sends: every version-gated send of
+   aldrin/src/client.rs (gates read from the source by the translator) happens only at a version at
+   which the protocol admits the message kind, and at exactly its introduction version *)
+Theorem C12_client_send_gates :
+  forallb gate_admits client_send_gates = true /\
+  map (fun p => Some (fst p)) client_send_gates = map (fun p => min_version_of (snd p)) client_send_gates.
+Proof. exact (conj client_send_gates_sound client_send_gates_exact). Qed.
+Print Assumptions C12_client_send_gates.
